@@ -133,6 +133,33 @@ def analyse_fn(rep, rules_, m, fname, kind):
                 rep.finding(r_rep, fname, "success:amount", "a successful %s has moved %r, not the requested amount %r"
                             % (kind, ghost, A0), where=rt["where"])
                 r_rep.fail()
+    # ... and at every suspension: a stop (which never returns) or an observer can come between two partial transfers, so
+    # the caller-visible amount is up to date whenever the call blocks
+    seen_y = set()
+    for yt in log.get("yields", []):
+        s = yt["state"]
+        ghost = s.d.get(("v", "ghost:moved")) or Aff.const(0)
+        rep_v = s.d.get(("v", amt))
+        if rep_v is None:
+            rep_v = A0
+        want = ghost if kind == "get" else A0 - ghost
+        eqs = [k[1] for k in s.d if k[0] == "eq"]
+        d = rep_v - want
+        ok = d.is_zero() or any((d - e).is_zero() or (d + e).is_zero() for e in eqs)
+        key = (yt["where"], repr(rep_v), repr(want))
+        if key in seen_y:
+            continue
+        seen_y.add(key)
+        r_rep.instance("%s: blocks at %s: reported=%r moved=%r" % (fname, yt["where"], rep_v, ghost))
+        if ok:
+            r_rep.ok()
+        else:
+            rep.finding(r_rep, fname, "report:while-blocked", "when the %s blocks at %s the caller-visible amount is %r but %s is %r: "
+                        "a part that is already in the level is not reported - if the process is stopped there (it never "
+                        "returns) or the amount is read meanwhile, the partial transfer is lost from the books"
+                        % (kind, yt["where"], rep_v, "the amount taken so far" if kind == "get" else "the request minus what was added so far",
+                           want), where=yt["where"])
+            r_rep.fail()
     # conservation: the ghost is, by construction, the sum of all level changes made by this call; what is
     # checked is that no level store escapes it (every store to the level goes through the tracked path) and
     # that the function writes nothing else of the buffer's state
@@ -175,7 +202,21 @@ def rules(rep, m):
         for x in walk(f.body):
             if x["kind"] == "IfStmt":
                 c = kids(x)[0]
-                for y in walk(c):
+                # the test and what the locals it mentions were computed from
+                nodes_ = list(walk(c))
+                seen_ = set()
+                work_ = [y for y in nodes_ if y["kind"] == "DeclRefExpr" and y.get("ref", {}).get("kind") == "VarDecl"]
+                while work_ and len(seen_) < 12:
+                    v_ = work_.pop()
+                    if v_["ref"]["id"] in seen_:
+                        continue
+                    seen_.add(v_["ref"]["id"])
+                    d_ = cx.single_def(v_["ref"]["id"])
+                    if d_ is not None:
+                        dn_ = list(walk(d_))
+                        nodes_ += dn_
+                        work_ += [y for y in dn_ if y["kind"] == "DeclRefExpr" and y.get("ref", {}).get("kind") == "VarDecl"]
+                for y in nodes_:
                     if y["kind"] == "BinaryOperator" and y.get("opcode") in ("+", "-"):
                         a, b = cx.canon(kids(y)[0]), cx.canon(kids(y)[1])
                         okk = True
